@@ -87,14 +87,31 @@ def _gen_seq(rng, tier):
     return case
 
 
+# directed free-running configurations: (policy, cap, nprod, blocking_pct, pace)
+#  * bounded burst, every producer blocking: take_all wakes ALL waiters at once; each must re-check the
+#    capacity before it pushes (tuple sizes and pending_items samples show an overshoot)
+#  * bounded queue, blocking and non-blocking producers mixed, flat out: a try_send can take the slot freed
+#    by a pop between the notify_one and the woken waiter's resumption
+#  * unbounded / roomy sources under contention: every try_send must be accepted
+DIRECTED = [
+    (1, 1, 4, 100, 0), (1, 2, 6, 100, 0), (1, 1, 3, 100, 1), (1, 3, 8, 100, 0), (1, 2, 4, 60, 0),
+    (0, 1, 4, 50, 0), (0, 1, 6, 60, 0), (0, 2, 4, 30, 0), (0, 1, 3, 100, 0), (0, 2, 8, 60, 1),
+    (0, 0, 8, 0, 0), (0, 0, 4, 0, 0), (1, 0, 6, 0, 0), (2, 0, 6, 0, 0), (0, 0, 6, 30, 0), (0, 0, 8, 0, 1),
+]
+
+
 def _gen_stress(rng, tier):
-    policy = rng.choice([0, 0, 0, 1, 2])
-    cap = rng.choice([0, 1, 1, 2, 3, 8])
-    nprod = rng.choice([1, 2, 2, 3, 4, 4, 6, 8])
     total = rng.choice([40, 120, 300, 600]) if tier == "quick" else rng.choice([100, 400, 1000, 2000])
+    if rng.random() < 0.5:
+        policy, cap, nprod, block, pace = rng.choice(DIRECTED)
+        total = max(total, 300)
+    else:
+        policy = rng.choice([0, 0, 0, 1, 2])
+        cap = rng.choice([0, 1, 1, 2, 3, 8])
+        nprod = rng.choice([1, 2, 2, 3, 4, 4, 6, 8])
+        block = rng.choice([0, 0, 30, 60, 100])
+        pace = rng.choice([0, 0, 1, 2, 3])
     nmsg = max(1, total // nprod)
-    block = rng.choice([0, 0, 30, 60, 100])
-    pace = rng.choice([0, 0, 1, 2, 3])
     stop_mode = 1 if rng.random() < 0.2 else 0
     return [[2, policy, cap, nprod, nmsg, block, pace, stop_mode, rng.randint(1, 1 << 30)]]
 
@@ -201,6 +218,8 @@ def _oracle_seq(case, out):
             last_t = t
             if policy != 1 and len(vs) != 1:
                 bad("multi_delivery", "delivery %s" % l)
+            if policy == 1 and cap and len(vs) > cap:
+                bad("over_capacity", "burst of %d values from a source of capacity %d" % (len(vs), cap))
             if policy == 2:
                 if not since or vs != [since[-1]]:
                     bad("confl_not_latest", "delivered %s, accepted since the last delivery %s" % (vs, since))
@@ -336,6 +355,11 @@ def _oracle_stress(case, out):
             bad("multi_delivery", "delivery %s" % d)
             break
     # capacity
+    if policy == 1 and cap:
+        for d in delivs:
+            if len(d["vals"]) > cap:
+                bad("over_capacity", "burst of %d values from a source of capacity %d" % (len(d["vals"]), cap))
+                break
     lim = 1 if policy == 2 else cap
     for tk, n in h["samples"]:
         if (policy == 2 or cap) and n > lim:
